@@ -1063,6 +1063,13 @@ class Walker:
         return t
 
     def inline_call(self, fi: FunctionInfo, recv, args, kwargs, e: ast.Call) -> Term:
+        if fi.decorators:
+            # a decorated helper is not its body (memoisation, wrapping, ...): keep the call opaque
+            fn = ("attr", recv, fi.name) if recv is not None else ("mod", fi.fq)
+            t = ("call", fn, args, kwargs)
+            self.emit("call", e, target=fn, value=t, name=fi.name, args=args, kwargs=kwargs)
+            self.invalidate(self.call_writes(fi.name), None, cause="call:" + fi.name)
+            return t
         params = fi.params
         env: Dict[str, Term] = {}
         a = fi.node.args
